@@ -25,6 +25,8 @@ macro_rules! dispatch {
             "C04" => $f(&checks::c04::C04 $(, $arg)*),
             "C09" => $f(&checks::c09::C09 $(, $arg)*),
             "C11" => $f(&checks::c11::C11 $(, $arg)*),
+            "C14" => $f(&checks::c14::C14 $(, $arg)*),
+            "C10" => $f(&checks::c10::C10 $(, $arg)*),
             _ => {
                 eprintln!("unknown or not-applicable property {}", $id);
                 std::process::exit(2)
